@@ -283,6 +283,48 @@ def check_scenarios(impl_by_tag):
     return fails
 
 
+def overload_stream(v, r, tier, n_quick, n_thorough, cancelable, quiet=False):
+    """random programs over the span API in which queues are filled to within a few slots of their capacity (or beyond) before
+    and between the operations; the implementation's transcript is judged by the omission-only oracle and compared with the
+    model's.  cancelable: True / False / None (alternating).  Returns the coverage entry."""
+    import proggen
+    import seqcheck
+    progs, fail, mism, hist = [], [], [], {}
+    for i in range(n_quick if tier == "quick" else n_thorough):
+        g = proggen.make(r.fork(), "tree", {"overload": True, "threads": 1 + i % 3, "ops": 12 + r.below(30), "cancelable": (i % 2 == 0) if cancelable is None else cancelable,
+                                            "cycle_density": 1 + i % 3, "exits": False, "late_reporter": False, "no_reporter": False, "multi": i % 4 == 0})
+        progs.append(g.lines)
+    impl = seqrun.run_impl(progs)
+    model = seqrun.run_model(progs)
+    for ci, (lines, outs) in enumerate(zip(progs, impl)):
+        try:
+            f, tr = seqcheck.eval_case(lines, outs, ["no_panic", "omission_only"])
+        except Exception as ex:
+            f = [("transcript", "unparsable implementation transcript: %s" % ex)]
+        for nm, msg in f:
+            fail.append((ci, msg))
+        for o in outs:
+            if o.startswith("rep "):
+                hist["reports"] = hist.get("reports", 0) + 1
+                hist["records"] = hist.get("records", 0) + (0 if o.strip() == "rep -" else len(o.split()) - 1)
+        hist["cancels"] = hist.get("cancels", 0) + sum(1 for l in lines if l.split()[1] == "cancel")
+        if model is not None:
+            k = seqrun.first_mismatch(outs, model[ci])
+            if k is not None:
+                mism.append((ci, k))
+    for ci, msg in fail[:2]:
+        v.violation(msg, {"program": progs[ci], "stream": "overload", "implementation_transcript": [seqrun.strip_times(x)[:300] for x in impl[ci]][-30:]})
+    if not fail and mism and not quiet and not v.violations:
+        ci, k = mism[0]
+        v.violation("overload program: model/implementation correspondence broken at %r: implementation %r, model %r"
+                    % (progs[ci][k] if k < len(progs[ci]) else "<end>", seqrun.strip_times(impl[ci][k])[:200] if k < len(impl[ci]) else None,
+                       seqrun.strip_times(model[ci][k])[:200] if k < len(model[ci]) else None),
+                    {"program": progs[ci], "line": k, "mismatching_programs": len(mism)}, found_input=False, tag="corr-overload")
+    return {"programs": len(progs), "oracle_failures": len(fail), "correspondence_mismatches": len(mism), **hist,
+            "rule": "random programs over the span API (1-3 threads) in which queues are filled to within a few slots of their capacity (or beyond) before and between "
+                    "the operations; oracle: nothing delivered twice, nothing of a cancelled / unfinished trace, no panic; every program also runs through the Lean model (transcripts equal)"}
+
+
 def run(v, tier, seed, replay):
     lean = C.lean_check(["C09", "E2E", "Fifo"], tier)
     ok, err = C.cargo_build("fh-core", ["fh-spsc", "fh-seq"])
@@ -320,39 +362,7 @@ def run(v, tier, seed, replay):
     s_mism = [(t, seqrun.first_mismatch(s_impl[i], s_model[i])) for i, t in enumerate(tags) if s_model and seqrun.first_mismatch(s_impl[i], s_model[i]) is not None] if s_impl else []
 
     # random programs over the span API whose threads work on (nearly) full queues: omission only, and the model agrees
-    o_progs, o_fail, o_mism, o_hist = [], [], [], {}
-    if not replay and ok:
-        import proggen
-        import seqcheck
-        for i in range(24 if tier == "quick" else 1500):
-            g = proggen.make(r.fork(), "tree", {"overload": True, "threads": 1 + i % 3, "ops": 12 + r.below(30), "cancelable": i % 2 == 0, "cycle_density": 1 + i % 3,
-                                                "exits": False, "late_reporter": False, "no_reporter": False, "multi": i % 4 == 0})
-            o_progs.append(g.lines)
-        o_impl = seqrun.run_impl(o_progs)
-        o_model = seqrun.run_model(o_progs)
-        for ci, (lines, outs) in enumerate(zip(o_progs, o_impl)):
-            try:
-                f, tr = seqcheck.eval_case(lines, outs, ["no_panic", "omission_only"])
-            except Exception as ex:
-                f = [("transcript", "unparsable implementation transcript: %s" % ex)]
-            for nm, msg in f:
-                o_fail.append((ci, msg))
-            for o in outs:
-                if o.startswith("rep "):
-                    o_hist["reports"] = o_hist.get("reports", 0) + 1
-                    o_hist["records"] = o_hist.get("records", 0) + (0 if o.strip() == "rep -" else len(o.split()) - 1)
-            if o_model is not None:
-                k = seqrun.first_mismatch(outs, o_model[ci])
-                if k is not None:
-                    o_mism.append((ci, k))
-        for ci, msg in o_fail[:2]:
-            v.violation(msg, {"program": o_progs[ci], "stream": "overload", "implementation_transcript": [seqrun.strip_times(x)[:300] for x in o_impl[ci]][-30:]})
-        if not o_fail and o_mism and not fails and not s_fail:
-            ci, k = o_mism[0]
-            v.violation("overload program: model/implementation correspondence broken at %r: implementation %r, model %r"
-                        % (o_progs[ci][k] if k < len(o_progs[ci]) else "<end>", seqrun.strip_times(o_impl[ci][k])[:200] if k < len(o_impl[ci]) else None,
-                           seqrun.strip_times(o_model[ci][k])[:200] if k < len(o_model[ci]) else None),
-                        {"program": o_progs[ci], "line": k, "mismatching_programs": len(o_mism)}, found_input=False, tag="corr-overload")
+    o_cov = overload_stream(v, r, tier, 24, 1500, None, quiet=bool(fails or s_fail)) if (not replay and ok) else {"programs": 0}
 
     # a cancel parked on its thread while the root finishes elsewhere (D21): the signal is not reordered against the commit
     if not replay and ok and not v.violations:
@@ -387,10 +397,7 @@ def run(v, tier, seed, replay):
         "traces_validated_against_impl": (len(cases) if impl is not None else 0) + len(s_impl),
         "exhaustive": False, "correspondence_mismatches": len(mism) + len(s_mism), "oracle_failures": len(fails) + len(s_fail),
         "overload_scenarios": tags,
-        "overload_programs": {"programs": len(o_progs), "oracle_failures": len(o_fail), "correspondence_mismatches": len(o_mism), **o_hist,
-                              "rule": "random programs over the span API (1-3 threads, both configurations) in which queues are filled to within a few slots of their "
-                                      "capacity (or beyond) before and between the operations; oracle: nothing delivered twice, nothing of a cancelled / unfinished trace, no panic; "
-                                      "every program also runs through the Lean model (transcripts equal)"},
+        "overload_programs": o_cov,
     }
     v.assumptions = ["Sender::drop at thread exit may lose parked commands when the ring is full (open finding D3; C09 limits itself to 'while the thread lives')",
                      "local limits (10240 spans per scope, 4096 scopes) are exercised in C07's focus programs and proved in C07_queue_at_limit / C07_scope_at_limit"]
